@@ -2,9 +2,14 @@ package mon
 
 import (
 	"bytes"
+	"fmt"
 	"github.com/tyler-sommer/stick"
 	"github.com/tyler-sommer/stick/twig"
+	"os"
+	"path/filepath"
+	"regexp"
 	"sort"
+	"strconv"
 	"strings"
 
 	"verifharness/model"
@@ -103,9 +108,67 @@ func (r *Recorder) Register(env *stick.Env) {
 	}
 }
 
+var (
+	fsSafeName = regexp.MustCompile(`^[A-Za-z0-9_-][A-Za-z0-9_.-]*(/[A-Za-z0-9_-][A-Za-z0-9_.-]*)*$`)
+	fsRing     []string
+	fsSeq      int
+)
+
+// loaderFor decides where an environment's templates come from: through readers of many shapes from memory, or -
+// for one case in eight whose template names are plain relative paths - from files below a directory of their
+// own, through the library's filesystem loader. What a template renders does not depend on where its bytes are
+// kept. (The library reads a file completely when it loads it; the directories of the last few environments are
+// kept, older ones are removed.)
+func loaderFor(sources map[string]string) stick.Loader {
+	h := uint32(2166136261)
+	names := make([]string, 0, len(sources))
+	for n := range sources {
+		names = append(names, n)
+	}
+	sort.Strings(names)
+	for _, n := range names {
+		if !fsSafeName.MatchString(n) || strings.Contains(n, "..") {
+			return &ShapedLoader{Templates: sources}
+		}
+		for _, c := range []byte(n + "\x00" + sources[n]) {
+			h = (h ^ uint32(c)) * 16777619
+		}
+	}
+	base := os.Getenv("VERIF_FSENV")
+	mod := uint32(8)
+	if m, err := strconv.Atoi(os.Getenv("VERIF_FSENV_MOD")); err == nil && m > 0 {
+		mod = uint32(m) // (a check with a million cases takes the file system for fewer of them)
+	}
+	if (h>>5)%mod != 3%mod || base == "" || len(names) == 0 {
+		return &ShapedLoader{Templates: sources}
+	}
+	for _, n := range names { // a name must not be both a file and a directory of another name
+		for _, m := range names {
+			if strings.HasPrefix(m, n+"/") {
+				return &ShapedLoader{Templates: sources}
+			}
+		}
+	}
+	fsSeq++
+	dir := filepath.Join(base, fmt.Sprintf("%d-%d", os.Getpid(), fsSeq))
+	for _, n := range names {
+		path := filepath.Join(dir, filepath.FromSlash(n))
+		if os.MkdirAll(filepath.Dir(path), 0o755) != nil || os.WriteFile(path, []byte(sources[n]), 0o644) != nil {
+			os.RemoveAll(dir)
+			return &ShapedLoader{Templates: sources}
+		}
+	}
+	fsRing = append(fsRing, dir)
+	if len(fsRing) > 6 {
+		os.RemoveAll(fsRing[0])
+		fsRing = fsRing[1:]
+	}
+	return stick.NewFilesystemLoader(dir)
+}
+
 // NewCoreEnv returns a core environment over the given sources with the recording callbacks.
 func NewCoreEnv(sources map[string]string) (*stick.Env, *Recorder) {
-	env := stick.New(&ShapedLoader{Templates: sources})
+	env := stick.New(loaderFor(sources))
 	r := &Recorder{}
 	r.Register(env)
 	return env, r
@@ -113,7 +176,7 @@ func NewCoreEnv(sources map[string]string) (*stick.Env, *Recorder) {
 
 // NewTwigEnv returns a Twig environment over the given sources with the recording callbacks.
 func NewTwigEnv(sources map[string]string) (*stick.Env, *Recorder) {
-	env := twig.New(&ShapedLoader{Templates: sources})
+	env := twig.New(loaderFor(sources))
 	r := &Recorder{}
 	r.Register(env)
 	return env, r
